@@ -1899,7 +1899,7 @@ def run(chk):
         "(both documented in file-formats.md); DCF: plain printable-ASCII tokens only (format is thinly documented)",
         "JSON/YAML: valid UTF-8 without lone surrogates; unique keys per object; numbers are compared by token in JSON AND YAML "
         "(reference-main-data-types.md: 'Numbers retain their original string representation ... One exception: on JSON output' for text that is not a JSON number; "
-        "a YAML re-rendering that keeps the value is listed as C01-F18, one that changes the value has a different signature)",
+        "a YAML re-rendering that keeps the value is listed as C01-F21, one that changes the value has a different signature)",
         "--allow-ragged-csv-input short rows: ONE outcome per format for every short row of a run - CSV: keys absent (the recorded execution in "
         "record-heterogeneity.md), CSV-lite / TSV / TSV-lite: filled with empty (flag help); the same pin as C05-b",
         "whole-input failures (a process that does not exit 0, text an independent reader rejects, a lost record, a text-only idempotence difference) carry in "
